@@ -883,6 +883,20 @@ func genC04(r *Run) {
 			add(w)
 		}
 	}
+	// packets whose option values refer to header fields (client identifier type = hardware type, with a chaddr of
+	// 0 / 6 / 16 octets; RFC 4390 IPoIB shape included): the header is read from the header
+	for _, ht := range []int{1, 6, 32, 0, 255} {
+		for _, hl := range []int{0, 6, 16} {
+			for vi := 0; vi < 5; vi++ {
+				hw := r.Bytes(hl)
+				idBody := [][]byte{append([]byte{}, hw...), r.Bytes(6), r.Bytes(20), {7}, {}}[vi]
+				a := r.randPkt(map[byte][]byte{61: append([]byte{byte(ht)}, idBody...), 53: {byte(1 + vi)}})
+				a[1] = []byte{0, byte(ht)}
+				a[10] = hw
+				add(pktOfArgs(a).ToBytes())
+			}
+		}
+	}
 	r.Extra["exhaustive_alphabet"] = fmt.Sprintf("option areas over %v up to length %d behind a fixed valid header", alpha, maxLen)
 	// the same areas through Options.FromBytes (no End required): C17's relay sub-option grammar
 	for _, c := range append([]Case{}, r.cases...) {
